@@ -49,11 +49,15 @@ meta["confirmed"] = {"builds": rc_b == 0, "suite_passes_with_patch": suite_ok, "
                      "demo_output_with_patch": o_d1[-600:], "commands": ["git apply patch.diff", "go build ./...", "go test -vet=off -count=1 ./...", "cd demo && go run ."]}
 # --- 2. run the checks against a scratch worktree of /repo with the patch applied (GOLDMARK_DIR), never /repo itself:
 #        package builders run their copies of ./check against /repo concurrently and must not see a seeded change
+NOCHECKS = "--no-checks" in sys.argv   # confirm + store only; verdicts come from tools/seed_recheck.py (private copy of /verif)
 SR = "/var/tmp/seed_repo"
-if not os.path.isdir(SR):
+if NOCHECKS:
+    checks = []
+if not NOCHECKS and not os.path.isdir(SR):
     sh("git -C /repo worktree prune; git -C /repo worktree add --detach %s HEAD" % SR)
-sh("git checkout -q --detach $(git -C /repo rev-parse HEAD) && git checkout -- . && git clean -fdq", cwd=SR)
-rc, o = sh("git apply %s" % patch, cwd=SR)
+if not NOCHECKS:
+    sh("git checkout -q --detach $(git -C /repo rev-parse HEAD) && git checkout -- . && git clean -fdq", cwd=SR)
+rc, o = sh("git apply %s" % patch, cwd=SR) if not NOCHECKS else (0, "")
 if rc != 0:  # /repo may have gained commits since the seed was written: retry with fuzz
     rc, o = sh("patch -p1 -F3 --no-backup-if-mismatch < %s" % patch, cwd=SR)
 results = {}
@@ -80,8 +84,8 @@ else:
             if verdict == "error":
                 print(o_c[-1500:])
     finally:
-        sh("git checkout -- . && git clean -fdq", cwd=SR)
-        print("scratch worktree restored:", sh("git status --porcelain", cwd=SR)[1].strip() or "clean")
+        if not NOCHECKS: sh("git checkout -- . && git clean -fdq", cwd=SR)
+        if not NOCHECKS: print("scratch worktree restored:", sh("git status --porcelain", cwd=SR)[1].strip() or "clean")
 meta["checks"] = results
 # --- 3. store
 dst = os.path.join(ROOT, "seeded", "%s-%s" % (pid, k))
